@@ -1,6 +1,103 @@
 -------------------------------- MODULE JC19 --------------------------------
-(* C19 — contract of the recorded events of this property (stub).           *)
-EXTENDS BigNat
+(* C19 — random sampling under scripted RNG streams.                        *)
+(*  rmod   v < m (and the RNG error exactly when a failing stream ends)     *)
+(*  rbits  ok iff bl <= precision (and precision = type bits for fixed      *)
+(*         types), then v < 2^bl; the documented error class otherwise;     *)
+(*         the panicking wrappers panic exactly on error                    *)
+(*  rand   plain types read the stream little-endian, 8 bytes per limb;     *)
+(*         Odd forces the low bit; NonZero skips all-zero samples           *)
+(*  pair   fixed and boxed samplers of the same width: same value, same     *)
+(*         consumption                                                      *)
+(*  unif / ubits  uniformity as a counting statement on the real code: over *)
+(*         ALL 2^kb patterns of a kb-bit field of the first candidate (the  *)
+(*         rest of the stream fixed), the draws accepted in the first round *)
+(*         produce every admissible value of the slice, each equally often  *)
+(*  stat   frequency counts of N ChaCha draws within 8 sigma                *)
+EXTENDS BigNat, Sequences, FiniteSets
 
-JudgeC19(e, rg) == FALSE
+LOCAL C19Has(e, f) == f \in DOMAIN e
+
+LOCAL C19Rmod(e) ==
+  IF C19Has(e, "fail")
+  THEN \/ e.k = "err"                                  \* stream ended: the RNG error is reported
+       \/ (e.k = "ok" /\ Lt(e.v, e.m) /\ e.c <= Len(e.st))  \* or it was never needed
+  ELSE /\ e.k = "ok"
+       /\ Lt(e.v, e.m)
+       /\ (C19Has(e, "vp") => e.vp = e.bits)
+
+LOCAL C19Rbits(e) ==
+  LET fixed  == e.ty = "fixed"
+      tb     == FromInt(e.tb)
+      precok == ~fixed \/ e.prec = tb
+      lenok  == Le(e.bl, e.prec)
+      panicking == e.form \in {"uint.random_bits"}
+  IN IF ~precok THEN e.k = "err" /\ e.e = "PrecisionMismatch"
+     ELSE IF ~lenok THEN (IF panicking THEN e.k = "panic" ELSE e.k = "err" /\ e.e = "BitLengthTooLarge")
+     ELSE /\ e.k = "ok"
+          /\ Fits(e.v, ToInt(e.bl))
+          /\ (C19Has(e, "vp") => (e.vp >= ToInt(e.prec) /\ e.vp < ToInt(e.prec) + 64 /\ e.vp % 64 = 0) \/ (e.prec = Zero /\ e.vp \in {0, 64}))
+
+LOCAL C19Take(st, from, n) == FromLE([i \in 1..n |-> IF from + i <= Len(st) THEN st[from + i] ELSE 0])
+
+LOCAL C19Rand(e) ==
+  LET nb == e.bits \div 8
+      first == C19Take(e.st, 0, nb)
+  IN /\ e.k = "ok"
+     /\ CASE e.w = "plain" -> e.v = first /\ e.c = nb
+          [] e.w = "odd"   -> e.v = Or(first, One) /\ e.c = nb
+          [] e.w = "nz"    -> e.v = C19Take(e.st, nb * e.zs, nb) /\ e.v # Zero /\ e.c = nb * (e.zs + 1)
+          [] OTHER -> FALSE
+
+LOCAL C19Pair(e) == /\ e.k = "ok" /\ e.v1 = e.v2 /\ e.c1 = e.c2 /\ e.p2 = e.bits
+                    /\ (C19Has(e, "m") => Lt(e.v1, e.m))
+                    /\ (C19Has(e, "bl") => Fits(e.v1, ToInt(e.bl)))
+
+(* ---- uniformity by counting ------------------------------------------- *)
+LOCAL C19Min(s) == CHOOSE x \in {s[i] : i \in 1..Len(s)} : \A j \in 1..Len(s) : Le(x, s[j])
+LOCAL C19Count(outs, idx, v) == Cardinality({i \in idx : outs[i] = v})
+
+LOCAL C19Unif(e) ==
+  LET n    == Len(e.outs)
+      acc  == {i \in 1..n : Le(e.cs[i], FromInt(e.sl))}            \* accepted within the scripted first candidate
+      cand(i) == Add(e.lowfix, Shl(FromInt(i - 1), e.sh))          \* the candidate of pattern i-1
+      adm  == {i \in 1..n : Lt(cand(i), e.m)}                      \* admissible candidates of the slice
+      vals == {e.outs[i] : i \in acc}
+  IN /\ e.k = "ok"
+     /\ n = 2 ^ e.kb /\ Len(e.cs) = n
+     /\ \A i \in 1..n : Lt(e.outs[i], e.m)                         \* range, always
+     /\ Cardinality(acc) = Cardinality(adm)                        \* acceptance rate = admissible fraction
+     /\ Cardinality(vals) = Cardinality(adm)                       \* every admissible value is produced ...
+     /\ \A v \in vals : C19Count(e.outs, acc, v) = 1               \* ... equally often (once)
+
+LOCAL C19Ubits(e) ==
+  LET n    == Len(e.outs)
+      vals == {e.outs[i] : i \in 1..n}
+  IN /\ e.k = "ok"
+     /\ n = 2 ^ e.kb
+     /\ \A i \in 1..n : Fits(e.outs[i], e.bl)
+     /\ Cardinality(vals) = n                                       \* the field maps bijectively into the output
+     /\ \A i \in 1..n : e.cs[i] = e.cs[1]                           \* consumption does not depend on the bits
+
+(* each count within 8 standard deviations of N/m: (m*c - N)^2 <= 64 * N * (m - 1)  *)
+LOCAL C19Stat(e) ==
+  LET N == FromInt(e.n)
+      m == e.m
+      k == ToInt(m)
+      dev(c) == IF Ge(Mul(m, c), N) THEN Sub(Mul(m, c), N) ELSE Sub(N, Mul(m, c))
+      RECURSIVE Sum(_)
+      Sum(i) == IF i = 0 THEN Zero ELSE Add(e.counts[i], Sum(i - 1))
+  IN /\ e.k = "ok"
+     /\ Len(e.counts) = k
+     /\ Sum(k) = N
+     /\ \A i \in 1..k : Le(Mul(dev(e.counts[i]), dev(e.counts[i])), Mul(FromInt(64), Mul(N, Sub(m, One))))
+
+JudgeC19(e, rg) ==
+  CASE e.op = "rmod"  -> C19Rmod(e)
+    [] e.op = "rbits" -> C19Rbits(e)
+    [] e.op = "rand"  -> C19Rand(e)
+    [] e.op = "pair"  -> C19Pair(e)
+    [] e.op = "unif"  -> C19Unif(e)
+    [] e.op = "ubits" -> C19Ubits(e)
+    [] e.op = "stat"  -> C19Stat(e)
+    [] OTHER -> FALSE
 =============================================================================
